@@ -253,6 +253,63 @@ def fit_value(typ, tokens, v, pat, rnd):
     return v
 
 
+def tokenise(text: str):
+    """Tokens of a culture's own pattern text (the expansion of a standard pattern letter), in the vocabulary the spec knows.
+
+    Runs of one letter are fields; quoted and escaped literals are canonicalised to a known literal token when they cannot be
+    mistaken for a field's text (no digits, signs, periods or commas); '.' or ';' directly before a fraction run joins it.
+    Anything else is kept verbatim: a token outside the spec's vocabulary makes no round-trip claim."""
+    toks, i = [], 0
+    while i < len(text):
+        ch = text[i]
+        if ch in "'\"":
+            j = text.find(ch, i + 1)
+            if j < 0:
+                return None
+            lit = text[i + 1:j]
+            safe = lit and not any(c.isdigit() or c in ".,;+-:/" for c in lit)
+            toks.append("'at'" if safe else text[i:j + 1])
+            i = j + 1
+        elif ch == "\\":
+            if i + 1 >= len(text):
+                return None
+            c = text[i + 1]
+            toks.append("\\h" if not (c.isdigit() or c in ".,;+-:/") else text[i:i + 2])
+            i += 2
+        elif ch.isalpha():
+            j = i
+            while j < len(text) and text[j] == ch:
+                j += 1
+            run = text[i:j]
+            if ch in "fF" and toks and toks[-1] in (".", ";"):
+                toks[-1] = toks[-1] + run
+            else:
+                toks.append(run)
+            i = j
+        else:
+            toks.append(ch)
+            i += 1
+    return toks
+
+
+def standard_expansion(typ: str, letter: str, culture):
+    """The custom pattern text a culture-dependent standard letter stands for (as the pattern parsers document)."""
+    f = _fi(culture).date_time_format
+    table = {
+        ("LocalTime", "t"): lambda: f.short_time_pattern, ("LocalTime", "T"): lambda: f.long_time_pattern,
+        ("LocalDate", "d"): lambda: f.short_date_pattern, ("LocalDate", "D"): lambda: f.long_date_pattern,
+        ("LocalDate", "M"): lambda: f.month_day_pattern,
+        ("LocalDateTime", "f"): lambda: f.long_date_pattern + " " + f.short_time_pattern,
+        ("LocalDateTime", "F"): lambda: f.full_date_time_pattern,
+        ("LocalDateTime", "g"): lambda: f.short_date_pattern + " " + f.short_time_pattern,
+        ("LocalDateTime", "G"): lambda: f.short_date_pattern + " " + f.long_time_pattern,
+    }
+    return table[(typ, letter)]()
+
+
+STANDARD_LETTERS = {"LocalTime": "tT", "LocalDate": "dDM", "LocalDateTime": "fFgG"}
+
+
 def gen(args) -> list:
     seed, npat = args
     from pyoda_time import AnnualDate, CalendarSystem
@@ -271,7 +328,16 @@ def gen(args) -> list:
         builtin = rnd.random() < 0.25
         tokens = []
         try:
-            if builtin:
+            if not builtin and typ in STANDARD_LETTERS and rnd.random() < 0.3:
+                # a standard letter: it stands for the culture's own pattern text, whose tokens the spec is given
+                letter = rnd.choice(STANDARD_LETTERS[typ])
+                pname = letter
+                pat = textgen.create(typ, letter, culture)
+                tokens = tokenise(standard_expansion(typ, letter, culture))
+                if tokens is None:
+                    continue
+                pname = "standard:" + letter
+            elif builtin:
                 name = rnd.choice(BUILTIN[typ])
                 pat = getattr(textgen.pattern_class(typ), name)
                 pname = "builtin:" + name
